@@ -229,11 +229,11 @@ def base_programs(tier):
                     continue
             if f == "R" and (quick or i % 4) and not (i % 40 == 0):
                 continue
-            if f == "K" and (i % (12 if quick else 3)):
+            if f == "K" and (i % (16 if quick else 3)):
                 continue
-            if f in ("F", "A") and quick and i % 6:
+            if f in ("F", "A") and quick and i % 8:
                 continue
-            if f == "H" and quick and i % 7:
+            if f == "H" and quick and i % 9:
                 continue
             if f == "S" and quick and case["family"] == "S.method-locals":
                 continue
